@@ -2,36 +2,448 @@
 from __future__ import annotations
 
 import ast
-import re
-from typing import Any
+from typing import Any, Callable
 
-from ..astutil import Locals, bool_atoms, call_name, cfg_of, constructs_error, error_names, norm, returns_error, short, truth_table, where
-from ..cfg import CFG, walk_own
+from ..astutil import ERROR_CLASSES, ERROR_ONLY_HELPERS, Locals, call_name, names_in, norm, role_anon, where
 from ..core import PKG, Report
 from ..domain import RAW, RAW_NONSTR, UNKNOWN, is_esc
 
-LEVEL = ("sibling rules over the 14 builders and their convert_value implementations: the default flows into convert_value, a "
-         "PropertyError result is returned before the property is constructed, the property stores the converted Value; "
-         "convert_value rejects by default (fall-through is an error, every acceptance under a type/membership test, bool "
-         "excluded where int is accepted); python_code is built not pasted (label analysis); the $ref route and the allOf "
-         "merge route re-convert with the receiving class (def-use + truth tables on their guards); to_string prints it.")
+LEVEL = ("path rules over the 14 builders and their convert_value implementations (every path of the function is walked with the "
+         "decisions taken on it): the default flows into convert_value, on every path a PropertyError result is returned and the "
+         "class is registered / the property returned only after the result was tested, the property stores the converted Value; "
+         "convert_value rejects by default (every path without a positive type / membership / equality decision about the value "
+         "ends in an error, every accepting return lies only on paths with such a decision, bool excluded wherever int is "
+         "accepted); python_code is built not pasted (label analysis); the $ref route and the allOf merge route re-convert with "
+         "the receiving class on every path that reaches the evolve(); to_string returns default.python_code on every path with "
+         "a default.")
 
 PERMISSIVE = {"StringProperty", "AnyProperty"}            # documented permissive kinds
 NO_DEFAULT = {"ListProperty", "ModelProperty", "FileProperty"}  # kinds without defaults: convert_value returns None / error
+
+# builtin types whose instance sets are known: int contains bool, everything else is pairwise disjoint
+_BUILTIN_EXT = {"str": {"str"}, "float": {"float"}, "int": {"int", "bool"}, "bool": {"bool"}, "bytes": {"bytes"}, "list": {"list"},
+                "dict": {"dict"}, "tuple": {"tuple"}, "set": {"set"}}
+_NONNULL_CALLS = {"str", "repr", "format", "join", "float", "int", "bool"}
+ACCEPTING = {"built", "conv", "valid", "other", "nonnull", "param"}
+
+
+# ---- path walker -------------------------------------------------------------------------------------------------------------
+# Every path of one (small) function is walked over its statement structure.  A state carries, for the path walked so far,
+#   kind   what each local / parameter holds:  none | error | conv (result of a *.convert_value call, untested) | valid (such a
+#          result after `isinstance(x, <Error>)` was answered no) | built (Value(...)) | nonnull | passed (already a Value) |
+#          param (untouched parameter) | other;  conv / valid / error remember the call they come from
+#   facts  the truth value of every decision taken (atoms in positive form: `a is not b` is `a is b` answered no, so inverted tests,
+#          swapped branches, early return vs nested if all yield the same facts); dropped when a name they mention is re-bound
+#   hist   the same decisions, kept for good (what has been established about the value on this path)
+#   ev     the positive decisions about the source value (type / membership / equality answered yes, or a delegate conversion
+#          answered "not an error")
+# Infeasible combinations are pruned (None is no error; two disjoint builtin types; bool without int).  Loops run to a fixpoint
+# over the finite state set, any statement of a try body may jump to its handlers.
+
+class PState:
+    __slots__ = ("kind", "taint", "facts", "tfacts", "hist", "ev", "errs")
+
+    def __init__(self) -> None:
+        self.kind: dict[str, tuple[str, int | None]] = {}
+        self.taint: frozenset[str] = frozenset()
+        self.facts: dict[str, bool] = {}
+        self.tfacts: tuple[tuple[str, frozenset[str], bool], ...] = ()   # (subject text, builtin type names, truth)
+        self.hist: frozenset[tuple[str, bool]] = frozenset()
+        self.ev: frozenset[str] = frozenset()
+        self.errs: frozenset[int] = frozenset()     # conversions found to be an error on this path (kept when the name is re-bound)
+
+    def copy(self) -> "PState":
+        s = PState()
+        s.kind = dict(self.kind)
+        s.taint = self.taint
+        s.facts = dict(self.facts)
+        s.tfacts = self.tfacts
+        s.hist = self.hist
+        s.ev = self.ev
+        s.errs = self.errs
+        return s
+
+    def key(self) -> tuple:
+        return (tuple(sorted(self.kind.items(), key=lambda kv: kv[0])), self.taint, tuple(sorted(self.facts.items())), self.tfacts,
+                self.hist, self.ev, self.errs)
+
+    def said(self, text: str, truth: bool) -> bool:
+        return (text, truth) in self.hist
+
+
+def _dedupe(states: list[PState]) -> list[PState]:
+    seen: dict[tuple, PState] = {}
+    for s in states:
+        seen.setdefault(s.key(), s)
+    return list(seen.values())
+
+
+def _positive(e: ast.expr) -> tuple[ast.expr, bool]:
+    """(positive form of a test leaf, flipped?)"""
+    if isinstance(e, ast.Compare) and len(e.ops) == 1:
+        swap = {ast.IsNot: ast.Is, ast.NotEq: ast.Eq, ast.NotIn: ast.In}
+        for neg, pos in swap.items():
+            if isinstance(e.ops[0], neg):
+                return ast.Compare(left=e.left, ops=[pos()], comparators=e.comparators), True
+    return e, False
+
+
+def _type_names(t: ast.expr) -> list[str]:
+    return [norm(x).rsplit(".", 1)[-1] for x in (t.elts if isinstance(t, ast.Tuple) else [t])]
+
+
+def _is_none(e: ast.AST) -> bool:
+    return isinstance(e, ast.Constant) and e.value is None
+
+
+class Paths:
+    def __init__(self, fn: ast.FunctionDef, tainted: set[str] = frozenset(), source: Callable[[ast.AST], bool] | None = None,
+                 source_nonnull: bool = False) -> None:
+        self.fn = fn
+        a = fn.args
+        self.params = {x.arg for x in [*a.posonlyargs, *a.args, *a.kwonlyargs]}
+        self.source = source or (lambda n: False)
+        self.source_nonnull = source_nonnull
+        self.sites: dict[int, tuple[ast.Call, bool]] = {}    # conversion call -> (node, argument derived from the source?)
+        self.records: list[tuple[ast.stmt | None, PState]] = []  # (simple statement | None = end of function, state before it)
+        self._names: dict[str, set[str]] = {}
+        self._try: list[list[PState]] = []
+        s0 = PState()
+        s0.taint = frozenset(tainted)
+        for p in self.params:
+            s0.kind[p] = ("param", None)
+        outs = self._block(fn.body, [s0], None)
+        for s in outs:
+            self.records.append((None, s))
+
+    # -- queries ------------------------------------------------------------------------------------------------------------
+    def derived(self, e: ast.AST | None, st: PState) -> bool:
+        if e is None:
+            return False
+        return any((isinstance(n, ast.Name) and n.id in st.taint) or self.source(n) for n in ast.walk(e))
+
+    def kind_of(self, e: ast.AST | None, st: PState) -> tuple[str, int | None]:
+        if e is None or _is_none(e):
+            return ("none", None)
+        if isinstance(e, ast.Constant) or isinstance(e, (ast.JoinedStr, ast.Tuple, ast.List, ast.Dict, ast.Set)):
+            return ("nonnull", None)
+        if isinstance(e, ast.Name):
+            return st.kind.get(e.id, ("other", None))
+        if isinstance(e, ast.Call):
+            last = call_name(e).rsplit(".", 1)[-1]
+            if last in ERROR_CLASSES or last in ERROR_ONLY_HELPERS:
+                return ("error", None)
+            if last.endswith("convert_value"):
+                self.sites[id(e)] = (e, bool(e.args) and self.derived(e.args[0], st))
+                return ("conv", id(e))
+            if last == "Value":
+                return ("built", None)
+            if last in _NONNULL_CALLS:
+                return ("nonnull", None)
+            return ("other", None)
+        if self.source(e) and self.source_nonnull:
+            return ("nonnull", None)
+        return ("other", None)
+
+    def returned(self, st_node: ast.stmt | None, st: PState) -> tuple[str, int | None]:
+        """kind of what a return statement (None: falling off the end) hands back; for a tuple, of its first element"""
+        v = st_node.value if isinstance(st_node, ast.Return) else None
+        if isinstance(v, ast.Tuple) and v.elts:
+            v = v.elts[0]
+        return self.kind_of(v, st)
+
+    def returns(self) -> list[tuple[ast.stmt | None, PState]]:
+        return [(n, s) for n, s in self.records if n is None or isinstance(n, ast.Return)]
+
+    # -- walking --------------------------------------------------------------------------------------------------------------
+    def _block(self, body: list[ast.stmt], states: list[PState], loop: dict | None) -> list[PState]:
+        cur = states
+        for st in body:
+            if not cur:
+                break
+            nxt: list[PState] = []
+            for s in cur:
+                nxt += self._stmt(st, s, loop)
+            cur = _dedupe(nxt)
+        return cur
+
+    def _stmt(self, n: ast.stmt, s: PState, loop: dict | None) -> list[PState]:
+        for col in self._try:
+            col.append(s)
+        if isinstance(n, ast.If):
+            t, f = self._branch(n.test, s)
+            return self._block(n.body, t, loop) + (self._block(n.orelse, f, loop) if n.orelse else f)
+        if isinstance(n, (ast.For, ast.AsyncFor, ast.While)):
+            return self._loop(n, s, loop)
+        if isinstance(n, ast.Try):
+            col: list[PState] = []
+            self._try.append(col)
+            outs = self._block(n.body, [s], loop)
+            self._try.pop()
+            if n.orelse:
+                outs = self._block(n.orelse, outs, loop)
+            for h in n.handlers:
+                hin = []
+                for c in _dedupe(col):
+                    c = c.copy()
+                    if h.name:
+                        self._bind(c, h.name, ("other", None), False)
+                    hin.append(c)
+                outs = outs + self._block(h.body, hin, loop)
+            if n.finalbody:
+                outs = self._block(n.finalbody, _dedupe(outs), loop)
+            return outs
+        if isinstance(n, (ast.With, ast.AsyncWith)):
+            s = s.copy()
+            for item in n.items:
+                if item.optional_vars is not None:
+                    self._assign_target(s, item.optional_vars, ("other", None), self.derived(item.context_expr, s))
+            return self._block(n.body, [s], loop)
+        if isinstance(n, (ast.FunctionDef, ast.AsyncFunctionDef, ast.ClassDef, ast.Import, ast.ImportFrom, ast.Pass, ast.Global,
+                          ast.Nonlocal)):
+            return [s]
+        if isinstance(n, ast.Match):
+            outs = [s]
+            for c in n.cases:
+                outs += self._block(c.body, [s.copy()], loop)
+            return outs
+        self.records.append((n, s))
+        if isinstance(n, (ast.Return, ast.Raise)):
+            return []
+        if isinstance(n, ast.Break):
+            if loop is not None:
+                loop["break"].append(s)
+            return []
+        if isinstance(n, ast.Continue):
+            if loop is not None:
+                loop["continue"].append(s)
+            return []
+        if isinstance(n, ast.Assign):
+            return self._assign(s, n.targets, n.value)
+        if isinstance(n, ast.AnnAssign):
+            return self._assign(s, [n.target], n.value) if n.value is not None else [s]
+        if isinstance(n, ast.AugAssign):
+            s = s.copy()
+            self._assign_target(s, n.target, ("other", None), self.derived(n.value, s) or self.derived(n.target, s))
+            return [s]
+        return [s]
+
+    def _loop(self, n: ast.For | ast.While, s: PState, outer: dict | None) -> list[PState]:
+        seen: dict[tuple, PState] = {}
+        work = [s]
+        exits: list[PState] = []
+        brk: list[PState] = []
+        while work:
+            h = work.pop()
+            if h.key() in seen:
+                continue
+            seen[h.key()] = h
+            if isinstance(n, ast.While):
+                t, f = self._branch(n.test, h)
+                exits += f
+                body_in = t
+            else:
+                b = h.copy()
+                self._assign_target(b, n.target, ("other", None), self.derived(n.iter, b))
+                exits.append(h)
+                body_in = [b]
+            lc: dict = {"break": [], "continue": []}
+            outs = self._block(n.body, body_in, lc)
+            work += outs + lc["continue"]
+            brk += lc["break"]
+        exits = _dedupe(exits)
+        if n.orelse:
+            exits = self._block(n.orelse, exits, outer)
+        return _dedupe(exits + brk)
+
+    def _assign(self, s: PState, targets: list[ast.expr], value: ast.expr) -> list[PState]:
+        if isinstance(value, ast.IfExp):   # x = A if T else B  is  if T: x = A  else: x = B
+            t, f = self._branch(value.test, s)
+            out: list[PState] = []
+            for x in t:
+                out += self._assign(x, targets, value.body)
+            for x in f:
+                out += self._assign(x, targets, value.orelse)
+            return out
+        k = self.kind_of(value, s)
+        d = self.derived(value, s)
+        s = s.copy()
+        for t_ in targets:
+            self._assign_target(s, t_, k, d)
+        return [s]
+
+    def _assign_target(self, s: PState, t: ast.expr, k: tuple[str, int | None], d: bool) -> None:
+        if isinstance(t, ast.Name):
+            self._bind(s, t.id, k, d)
+        elif isinstance(t, (ast.Tuple, ast.List)):
+            for e in t.elts:
+                self._assign_target(s, e, ("other", None), d)
+        elif isinstance(t, ast.Starred):
+            self._assign_target(s, t.value, ("other", None), d)
+        else:   # attribute / subscript store: what was decided about that place no longer holds
+            txt = norm(t)
+            for f in [f for f in s.facts if txt in f]:
+                del s.facts[f]
+            s.tfacts = tuple(x for x in s.tfacts if txt not in x[0])
+
+    def _bind(self, s: PState, name: str, k: tuple[str, int | None], d: bool) -> None:
+        s.kind[name] = k
+        s.taint = (s.taint | {name}) if d else (s.taint - {name})
+        for f in [f for f in s.facts if name in self._names.get(f, ())]:
+            del s.facts[f]
+        s.tfacts = tuple(x for x in s.tfacts if name not in self._names.get(x[0], ()))
+
+    # -- decisions ------------------------------------------------------------------------------------------------------------
+    def _branch(self, e: ast.expr, s: PState) -> tuple[list[PState], list[PState]]:
+        if isinstance(e, ast.BoolOp):
+            is_and = isinstance(e.op, ast.And)
+            cur, done = [s], []
+            for v in e.values:
+                nxt: list[PState] = []
+                for x in cur:
+                    t, f = self._branch(v, x)
+                    nxt += t if is_and else f
+                    done += f if is_and else t
+                cur = nxt
+            return (cur, done) if is_and else (done, cur)
+        if isinstance(e, ast.UnaryOp) and isinstance(e.op, ast.Not):
+            t, f = self._branch(e.operand, s)
+            return f, t
+        if isinstance(e, ast.Constant):
+            return ([s], []) if e.value else ([], [s])
+        pos, flip = _positive(e)
+        text = norm(pos)
+        self._names.setdefault(text, names_in(pos))
+        outs: dict[bool, list[PState]] = {True: [], False: []}
+        known = s.facts.get(text)
+        for truth in (True, False):
+            if known is not None and known != truth:
+                continue
+            s2 = self._assume(s, pos, text, truth)
+            if s2 is not None:
+                outs[truth != flip].append(s2)
+        return outs[True], outs[False]
+
+    def _assume(self, s: PState, pos: ast.expr, text: str, truth: bool) -> PState | None:
+        s = s.copy()
+        s.facts[text] = truth
+        about_source = False
+        evidence = False
+        if isinstance(pos, ast.Call) and call_name(pos) == "isinstance" and len(pos.args) == 2:
+            subj, tn = pos.args[0], _type_names(pos.args[1])
+            is_err = all(x in ERROR_CLASSES for x in tn)
+            tag, site = s.kind.get(subj.id, ("other", None)) if isinstance(subj, ast.Name) else ("other", None)
+            if is_err:
+                if truth and tag in ("none", "built", "valid", "nonnull", "passed"):
+                    return None
+                if not truth and tag == "error":
+                    return None
+                if isinstance(subj, ast.Name):
+                    if truth:
+                        s.kind[subj.id] = ("error", site if tag == "conv" else None)
+                        if tag == "conv":
+                            s.errs = s.errs | {site}
+                    elif tag == "conv":
+                        s.kind[subj.id] = ("valid", site)
+                        about_source = evidence = self.sites[site][1]   # the delegate accepted the source value
+            else:
+                if truth and tag == "none" and "object" not in tn and "NoneType" not in tn:
+                    return None
+                if truth and tag == "param" and tn == ["Value"]:
+                    s.kind[subj.id] = ("passed", None)
+                about_source = self.derived(subj, s)
+                evidence = about_source and truth
+                if all(x in _BUILTIN_EXT for x in tn):
+                    ext = set().union(*[_BUILTIN_EXT[x] for x in tn])
+                    stext = norm(subj)
+                    self._names.setdefault(stext, names_in(subj))
+                    for (o_s, o_t, o_truth) in s.tfacts:
+                        if o_s != stext:
+                            continue
+                        o_ext = set().union(*[_BUILTIN_EXT[x] for x in o_t])
+                        if truth and o_truth and not (ext & o_ext):
+                            return None     # two disjoint types
+                        if truth and not o_truth and ext <= o_ext:
+                            return None     # is an X although it is no (X | ...)
+                        if not truth and o_truth and o_ext <= ext:
+                            return None
+                    s.tfacts = s.tfacts + ((stext, frozenset(tn), truth),)
+        elif isinstance(pos, ast.Compare) and len(pos.ops) == 1:
+            op, l, r = pos.ops[0], pos.left, pos.comparators[0]
+            if isinstance(op, ast.Is) and (_is_none(r) or _is_none(l)):
+                subj = l if _is_none(r) else r
+                if isinstance(subj, ast.Name):
+                    tag = s.kind.get(subj.id, ("other", None))[0]
+                    if truth and tag in ("built", "error", "nonnull", "passed"):
+                        return None
+                    if not truth and tag == "none":
+                        return None
+                    if truth:
+                        s.kind[subj.id] = ("none", None)
+                about_source = self.derived(subj, s)
+            elif isinstance(op, (ast.Eq, ast.In)):
+                about_source = self.derived(l, s) or self.derived(r, s)
+                evidence = about_source and truth
+        else:
+            about_source = self.derived(pos, s)
+        if about_source:
+            s.hist = s.hist | {(text, truth)}
+        if evidence:
+            s.ev = s.ev | {text if truth else f"not {text}"}
+        return s
+
+
+def _value_param(f: Any) -> str | None:
+    ps = [p.arg for p in f.params if p.arg not in ("self", "cls")]
+    return ps[0] if ps else None
+
+
+def _calls_of(n: ast.AST | None) -> list[ast.Call]:
+    return [c for c in ast.walk(n) if isinstance(c, ast.Call)] if n is not None else []
+
+
+def _operands(e: ast.expr) -> list[ast.expr]:
+    """the alternatives an expression may evaluate to (`a or b`, `a if t else b`)"""
+    if isinstance(e, ast.BoolOp):
+        return [o for v in e.values for o in _operands(v)]
+    if isinstance(e, ast.IfExp):
+        return _operands(e.body) + _operands(e.orelse)
+    return [e]
+
+
+def _conversion_outcome(pp: Paths, sites: set[int]) -> tuple[list[str], list[str]]:
+    """over all returning paths: (paths on which a conversion result known to be an error is not what is returned,
+    paths that return something else while the conversion result was never tested)"""
+    lost, untested = [], []
+    for n, s in pp.returns():
+        rk = pp.returned(n, s)
+        if (s.errs & sites) and rk[0] != "error":
+            lost.append(f"the conversion failed, returns `{norm(n)[7:60] if n is not None else 'None'}`")
+        for nm, (tag, site) in s.kind.items():
+            if site not in sites:
+                continue
+            if tag == "conv" and rk[0] != "error":
+                untested.append(f"{nm} untested, returns `{norm(n)[7:60] if n is not None else 'None'}`")
+    return sorted(set(lost)), sorted(set(untested))
 
 
 def run(rep: Report, ctx: Any) -> str:
     ix = ctx.py
     it, ji = ctx.flow
-    cfgs: dict[str, CFG] = {}
-    rep.rule("R13.1", "every builder validates its default: convert_value(default) is called, a PropertyError result is returned "
-                      "before construction/registration, and the stored default is the converted value")
-    rep.rule("R13.2", "convert_value of typed kinds rejects by default: the fall-through return is a PropertyError, every accepting "
-                      "return sits under a type / membership test of the value, bool is excluded where int is accepted")
+    rep.rule("R13.1", "every builder validates its default: convert_value(default) is called; on every path a result that is a "
+                      "PropertyError is what the builder returns, no path returns or registers anything else before the result was "
+                      "tested; the stored default is the tested conversion result")
+    rep.rule("R13.2", "convert_value of typed kinds rejects by default: every path without a positive type / membership / equality "
+                      "decision about the value ends in a PropertyError, every accepting return is reached only over such a decision, "
+                      "bool is excluded on every path that accepts an int")
     rep.rule("R13.3", "python_code of every Value is built from reprs / checked numbers / sanitised names / literals")
-    rep.rule("R13.4", "defaults are re-validated on the other routes: _property_from_ref converts with the referenced class whenever "
-                      "a wrapper exists, _merge_common_attributes converts the override with the merged class, unions try members")
-    rep.rule("R13.5", "to_string prints default.python_code when a default exists")
+    rep.rule("R13.4", "defaults are re-validated on the other routes: on every path of _property_from_ref that reaches the evolve() "
+                      "with a wrapper schema the default is the referenced class's tested conversion of parent.default; "
+                      "_merge_common_attributes converts the override with the merged class on every path, unions try members")
+    rep.rule("R13.5", "to_string returns default.python_code on every path on which a default exists")
+    rep.rule("R13.6", "allOf: when two members declare the same property the later declaration's default wins: the incoming property "
+                      "reaches every _merge_common_attributes call as the last override (roles followed through the calls of the merge "
+                      "module), overrides are applied in argument order and the override's converted default is preferred")
 
     props = ix.property_classes()
     # ---- R13.1 ---------------------------------------------------------------------------------------------------------
@@ -51,37 +463,44 @@ def run(rep: Report, ctx: Any) -> str:
                   lhs=[norm(x)[:50] for x in conv], rhs="convert_value(default)")
         if not conv:
             continue
-        arg_ok = any("default" in norm(x) for x in conv)
-        rep.check(arg_ok, "R13.1", key + "::converts-default", "convert_value is not applied to the declared default", where(b, conv[0]),
+        is_default = lambda n: (isinstance(n, ast.Name) and n.id == "default" and "default" in params) or (  # noqa: E731
+            isinstance(n, ast.Attribute) and n.attr == "default")
+        dconv = [x for x in conv if x.args and is_default(x.args[0])]
+        rep.check(bool(dconv), "R13.1", key + "::converts-default", "convert_value is not applied to the declared default", where(b, conv[0]),
                   lhs=[norm(x)[:60] for x in conv], rhs="argument is the default")
-        if c.name in PERMISSIVE:
+        if c.name in PERMISSIVE or not dconv:
             continue
-        cfg = cfg_of(b, cfgs)
-        # result variable checked and returned before the schemas registration / final construction
-        res_vars = set()
-        for st in cfg.stmts():
-            if isinstance(st, ast.Assign) and any(x in conv for x in ast.walk(st.value)):
-                for t in st.targets:
-                    if isinstance(t, ast.Name):
-                        res_vars.add(t.id)
-        checks = [st for st in cfg.stmts() if isinstance(st, ast.If) and any(f"isinstance({v}, PropertyError)" in norm(st.test) for v in res_vars)
-                  and any(isinstance(r, ast.Return) for r in st.body)]
-        rep.check(bool(checks), "R13.1", key + "::error-returned", "a PropertyError from convert_value is not returned by the builder",
-                  where(b, b.node), lhs=sorted(res_vars), rhs="if isinstance(<converted>, PropertyError): return <it>")
-        # registration (classes_by_name) only after the check
-        regs = [st for st in cfg.stmts() if "classes_by_name=" in norm(st) and "evolve" in norm(st)]
-        for r in regs:
-            rep.check(any(cfg.is_dominated_by(r, lambda n, c_=c_: n is c_) for c_ in checks), "R13.1", key + "::registered-after-check",
-                      "the class is registered before its default has been validated", where(b, r), lhs=norm(r)[:60],
-                      rhs="dominated by the default check")
+        pp = Paths(b.node, tainted={"default"} & set(params), source=lambda n: isinstance(n, ast.Attribute) and norm(n) == "data.default")
+        sites = {id(x) for x in dconv}
+        # a result that is an error is returned; nothing else is returned while the result is untested
+        lost, untested = _conversion_outcome(pp, sites)
+        tested = any(s.errs & sites for _, s in pp.records)
+        rep.check(tested and not lost and not untested, "R13.1", key + "::error-returned",
+                  "a PropertyError from convert_value is not returned by the builder", where(b, b.node), lhs=lost + untested,
+                  rhs="every path: isinstance(<converted>, PropertyError) decided; yes -> it is returned")
+        # registration (classes_by_name) only on paths where the result was found not to be an error
+        regs: dict[int, tuple[ast.stmt, list[bool]]] = {}
+        for n, s in pp.records:
+            if n is not None and any(kw.arg == "classes_by_name" for c_ in _calls_of(n) for kw in c_.keywords):
+                regs.setdefault(id(n), (n, []))[1].append(any(tag == "valid" and site in sites for tag, site in s.kind.values()))
+        for n, oks in regs.values():
+            rep.check(all(oks), "R13.1", key + "::registered-after-check", "the class is registered before its default has been validated",
+                      where(b, n), lhs=norm(n)[:60], rhs="only on paths where the converted default was tested and is no error")
         # stored default is the converted value
-        stores = [kw for n in ast.walk(b.node) if isinstance(n, ast.Call) for kw in n.keywords if kw.arg == "default"
-                  and call_name(n).rsplit(".", 1)[-1] in ("cls", "evolve", c.name)]
-        stores += [n for n in ast.walk(b.node) if isinstance(n, ast.Assign) and any(norm(t).endswith(".default") for t in n.targets)]
-        final = [s for s in stores if not (isinstance(getattr(s, "value", None), ast.Constant) and s.value.value is None)]
-        rep.check(bool(final) and all(norm(s.value) in res_vars for s in final), "R13.1", key + "::stores-converted",
+        stored: list[tuple[ast.expr, PState]] = []
+        for n, s in pp.records:
+            if n is None:
+                continue
+            for c_ in _calls_of(n):
+                if call_name(c_).rsplit(".", 1)[-1] in ("cls", "evolve", c.name):
+                    stored += [(kw.value, s) for kw in c_.keywords if kw.arg == "default"]
+            if isinstance(n, ast.Assign) and any(isinstance(t, ast.Attribute) and t.attr == "default" for t in n.targets):
+                stored.append((n.value, s))
+        final = [(v, s) for v, s in stored if not _is_none(v)]
+        bad = [norm(v)[:40] for v, s in final if not (pp.kind_of(v, s)[0] == "valid" and pp.kind_of(v, s)[1] in sites)]
+        rep.check(bool(final) and not bad, "R13.1", key + "::stores-converted",
                   "the property stores something other than the converted default", where(b, b.node),
-                  lhs=[norm(s.value)[:40] for s in final], rhs=sorted(res_vars))
+                  lhs=bad or [norm(v)[:40] for v, _ in final], rhs="the tested result of convert_value(default)")
     rep.floor("builders_with_default", n_b, 11)
 
     # ---- R13.2 -------------------------------------------------------------------------------------------------------------
@@ -92,33 +511,41 @@ def run(rep: Report, ctx: Any) -> str:
             continue
         n_c += 1
         key = f"{c.name}.convert_value"
-        body = [s for s in cv.node.body if not (isinstance(s, ast.Expr) and isinstance(s.value, ast.Constant))]
-        last = body[-1] if body else None
+        pname = _value_param(cv)
+        rep.require(pname, f"value parameter of {key}")
+        pp = Paths(cv.node, tainted={pname})
+        rets = [(n, s, pp.returned(n, s)) for n, s in pp.returns()]
         if c.name in ("ListProperty",):
-            rep.ok("R13.2", key + "::no-default-kind", "returns None", "lists take no default", nontrivial=False)
+            rep.check(all(k[0] == "none" for _, _, k in rets), "R13.2", key + "::no-default-kind", "a list default is turned into code",
+                      where(cv, cv.node), lhs=sorted({k[0] for _, _, k in rets}), rhs="lists take no default: returns None")
             continue
-        if c.name == "UnionProperty":
-            # the fall-through returns a local that starts out as an error (any spelling) and is replaced only by an accepting member
-            ok = isinstance(last, ast.Return) and isinstance(last.value, ast.Name) and any(
-                constructs_error(v_) for v_ in Locals(cv.node).values_of(last.value.id))
-            rep.check(ok, "R13.2", key + "::fallthrough", "a union default that no member accepts is not an error", where(cv, cv.node))
-            continue
-        ok = isinstance(last, ast.Return) and (constructs_error(last.value) or (c.name == "ConstProperty" and norm(last.value) == "value"))
-        if c.name in ("ModelProperty", "FileProperty"):
-            ok = any(isinstance(n, ast.Return) and constructs_error(n.value) for n in ast.walk(cv.node))
-        rep.check(ok, "R13.2", key + "::fallthrough", "the fall-through of convert_value is not a PropertyError (unknown values are accepted)",
-                  where(cv, last or cv.node), lhs=norm(last)[:60] if last is not None else None, rhs="return PropertyError(...)")
-        # accepting returns (Value(...)) must be under a test mentioning `value`
-        for n in ast.walk(cv.node):
-            if isinstance(n, ast.Return) and n.value is not None and "Value(" in norm(n.value) and not constructs_error(n.value):
-                guards = _guards_of(cv.node, n)
-                typed = any("isinstance(" in g or " in self.values" in g or "==" in g for g in guards)
-                rep.check(typed, "R13.2", key + f"::accept[{norm(n.value)[:40]}]", "a default is accepted without any type or membership test",
-                          where(cv, n), lhs=guards, rhs="under isinstance / membership / equality test")
-                if any(re.search(r"isinstance\(\w+, int\)", g) for g in guards) and c.name in ("IntProperty", "FloatProperty"):
-                    rep.check(any("not isinstance" in g and "bool" in g for g in guards), "R13.2", key + "::bool-excluded",
-                              "booleans are accepted where an integer is expected (True == 1)", where(cv, n), lhs=guards,
-                              rhs="and not isinstance(value, bool)")
+        # paths on which nothing positive was established about a value that is neither None nor already a Value
+        nullish = lambda s: s.said(f"{pname} is None", True) or s.said(f"isinstance({pname}, Value)", True)  # noqa: E731
+        blind = [(n, s, k) for n, s, k in rets if not s.ev and not nullish(s)]
+        bad = sorted({f"{norm(n)[:60] if n is not None else '<end of function>'} ({k[0]})" for n, s, k in blind if k[0] != "error"})
+        first_bad = next((n for n, s, k in blind if k[0] != "error" and n is not None), cv.node)
+        rep.check(not bad, "R13.2", key + "::fallthrough", "the fall-through of convert_value is not a PropertyError (unknown values are accepted "
+                  "or dropped)", where(cv, first_bad), lhs=bad or f"{len(blind)} undecided path(s) end in an error", rhs="return PropertyError(...)")
+        # accepting returns lie only on paths with a positive decision about the value
+        by_ret: dict[int, list[tuple[ast.stmt, PState]]] = {}
+        for n, s, k in rets:
+            if n is not None and k[0] in ACCEPTING:
+                by_ret.setdefault(id(n), []).append((n, s))
+        int_ok: list[bool] = []
+        for group in by_ret.values():
+            n = group[0][0]
+            naked = [sorted(f"{t}={v}" for t, v in s.hist) for _, s in group if not s.ev]
+            rep.check(not naked, "R13.2", key + f"::accept[{role_anon(n.value, cv.node)[:40]}]",
+                      "a default is accepted without any type or membership test", where(cv, n), lhs=naked[:3] or sorted(set().union(*[s.ev for _, s in group])),
+                      rhs="on every path a type / membership / equality decision about the value answered yes")
+            for _, s in group:
+                for text, truth in s.hist:
+                    m = _isinstance_of(text)
+                    if truth and m is not None and "int" in m[1]:
+                        int_ok.append(s.said(f"isinstance({m[0]}, bool)", False))
+        if int_ok:
+            rep.check(all(int_ok), "R13.2", key + "::bool-excluded", "booleans are accepted where an integer is expected (True == 1)",
+                      where(cv, cv.node), lhs=f"{sum(int_ok)}/{len(int_ok)} accepting int paths exclude bool", rhs="and not isinstance(value, bool)")
     rep.floor("typed_convert_value", n_c, 11)
     # const: acceptance compares converted Values (typed comparison), never raw values
     cc = ix.cls("ConstProperty").methods.get("convert_value")
@@ -150,90 +577,271 @@ def run(rep: Report, ctx: Any) -> str:
             and norm(n.func.value) in existing and n.args and norm(n.args[0]) == "parent.default"]
     rep.check(bool(conv), "R13.4", "_property_from_ref::converts-with-referenced-class",
               "the wrapper's default is not converted by the referenced class", where(pfr, pfr.node))
-    for n in ast.walk(pfr.node):
-        if isinstance(n, ast.IfExp) and any(x in conv for x in ast.walk(n.body)):
-            # conversion skipped  =>  parent is None
-            ok = True
-            for env, res in truth_table(n.test):
-                if not res and env.get("parent is not None", None) is True:
-                    ok = False
-            ok = ok and "parent is not None" in bool_atoms(n.test)
-            rep.check(ok, "R13.4", "_property_from_ref::conversion-guard",
-                      f"the default is skipped under `{norm(n.test)}` although a wrapper schema exists (falsy defaults such as 0, false, '' "
-                      "would be dropped unvalidated)", where(pfr, n), lhs=norm(n.test), rhs="skipped only when parent is None")
-    cfg = cfg_of(pfr, cfgs)
-    errs = error_names(pfr.node)
-    converted = {nm for nm in pl.defs if any(any(x in conv for x in ast.walk(v_)) for v_ in pl.values_of(nm))}
-    chk = [s for s in cfg.stmts() if isinstance(s, ast.If) and any(norm(s.test) == f"isinstance({d_}, PropertyError)" for d_ in converted)
-           and any(isinstance(r_, ast.Return) for r_ in s.body)]
-    ev = [s for s in cfg.stmts() for c_ in walk_own(s) if isinstance(c_, ast.Call) and call_name(c_).endswith("evolve")
-          and any(k.arg == "default" and norm(k.value) in converted for k in c_.keywords)]
-    rep.check(bool(chk) and bool(ev) and all(cfg.is_dominated_by(e, lambda n: n in chk) for e in ev), "R13.4",
+    pp = Paths(pfr.node, source=lambda n: isinstance(n, ast.Attribute) and norm(n) == "parent.default")
+    sites = {id(x) for x in conv}
+    # every path that reaches the evolve(): no wrapper (parent is None), or the default is the conversion of parent.default
+    evolves = [(n, c_, kw.value, s) for n, s in pp.records if n is not None for c_ in _calls_of(n) if call_name(c_).endswith("evolve")
+               and c_.args and norm(c_.args[0]) in existing for kw in c_.keywords if kw.arg == "default"]
+    rep.require(evolves, "evolve(<referenced class>, default=...) in _property_from_ref")
+    skipped = sorted({", ".join(sorted(f"{t}={v}" for t, v in s.facts.items() if "parent" in t)) for n, c_, d, s in evolves
+                      if not s.facts.get("parent is None") and pp.kind_of(d, s)[1] not in sites})
+    rep.check(not skipped, "R13.4", "_property_from_ref::conversion-guard",
+              f"the default is skipped under `{skipped}` although a wrapper schema exists (falsy defaults such as 0, false, '' "
+              "would be dropped unvalidated)", where(pfr, evolves[0][0]), lhs=skipped, rhs="skipped only when parent is None")
+    lost, untested = _conversion_outcome(pp, sites)
+    raw = sorted({norm(d) for n, c_, d, s in evolves if pp.kind_of(d, s)[1] in sites and pp.kind_of(d, s)[0] != "valid"})
+    tested = any(s.errs & sites for n, s in pp.returns())
+    rep.check(tested and not lost and not untested and not raw, "R13.4",
               "_property_from_ref::error-before-evolve", "an invalid default next to a $ref is not returned as an error before the property "
-              "is built", where(pfr, pfr.node))
+              "is built", where(pfr, pfr.node), lhs=lost + untested + raw, rhs="every path: a conversion error is returned, evolve() gets a tested result")
+
     mca = ix.func("merge_properties._merge_common_attributes")
-    # every value flowing into evolve(default=...) comes from current.convert_value(...) or current.default
-    for n in ast.walk(mca.node):
-        if isinstance(n, ast.Call) and call_name(n).endswith("evolve"):
-            for kw in n.keywords:
-                if kw.arg == "default":
-                    acc = norm(n.args[0]) if n.args else ""
-                    over = {norm(lp.target) for lp in ast.walk(mca.node) if isinstance(lp, ast.For) and norm(lp.iter) == "extend_with"}
-                    names = {x.id for x in ast.walk(kw.value) if isinstance(x, ast.Name)} - {acc}
-                    bad = []
-                    for nm in sorted(names):
-                        defs = [a for a in ast.walk(mca.node) if isinstance(a, ast.Assign) and any(norm(t) == nm for t in a.targets)]
-                        if nm in over or not defs:
-                            bad.append(f"{nm} (not converted)")
-                        for a in defs:
-                            v = norm(a.value)
-                            if not (v == "None" or f"{acc}.convert_value(" in v):
-                                bad.append(f"{nm} = {v}")
-                    rep.check(not bad, "R13.4", "_merge_common_attributes::default-from-merged-class",
-                              f"a default enters the merged property without being converted by the merged class: {bad}", where(mca, n),
-                              lhs=bad, rhs="current.convert_value(override.default.raw_value) | current.default")
-                    # conversion error returned
-                    chk2 = [s for s in ast.walk(mca.node) if isinstance(s, ast.If) and any(norm(s.test) == f"isinstance({nm}, PropertyError)" for nm in names)
-                            and any(isinstance(r_, ast.Return) for r_ in s.body)]
-                    rep.check(bool(chk2), "R13.4", "_merge_common_attributes::error-returned", "an override default invalid for the merged type is not reported",
-                              where(mca, mca.node))
+    pm = Paths(mca.node)
+    # every value flowing into evolve(<merged>, default=...) is <merged>.default or the tested <merged>.convert_value(...) on that path
+    m_evolves = [(n, c_, kw.value, s) for n, s in pm.records if n is not None for c_ in _calls_of(n) if call_name(c_).endswith("evolve")
+                 and c_.args for kw in c_.keywords if kw.arg == "default"]
+    rep.require(m_evolves, "evolve(<merged>, default=...) in _merge_common_attributes")
+    bad_m: set[str] = set()
+    m_sites: set[int] = set()
+    for n, c_, d, s in m_evolves:
+        acc = norm(c_.args[0])
+        for o in _operands(d):
+            if _is_none(o) or norm(o) == f"{acc}.default":
+                continue
+            tag, site = pm.kind_of(o, s)
+            call = pm.sites[site][0] if site in pm.sites else None
+            by_merged = call is not None and isinstance(call.func, ast.Attribute) and norm(call.func.value) == acc
+            if by_merged:
+                m_sites.add(site)
+            if tag == "none" or (by_merged and tag in ("valid", "conv")):
+                continue
+            how = sorted(f"{t}={v}" for t, v in s.facts.items() if "default" in t)
+            bad_m.add(f"{role_anon(o, mca.node)} ({tag}) when {how}")
+    rep.check(not bad_m, "R13.4", "_merge_common_attributes::default-from-merged-class",
+              f"a default enters the merged property without being converted by the merged class: {sorted(bad_m)}", where(mca, m_evolves[0][0]),
+              lhs=sorted(bad_m), rhs="current.convert_value(override.default.raw_value) | current.default")
+    lost, untested = _conversion_outcome(pm, m_sites)
+    raw = sorted({norm(o) for n, c_, d, s in m_evolves for o in _operands(d) if pm.kind_of(o, s)[1] in m_sites and pm.kind_of(o, s)[0] == "conv"})
+    tested = any(s.errs & m_sites for n, s in pm.returns())
+    rep.check(tested and not lost and not untested and not raw, "R13.4", "_merge_common_attributes::error-returned",
+              "an override default invalid for the merged type is not reported", where(mca, mca.node), lhs=lost + untested + raw,
+              rhs="every path: a conversion error is returned, evolve() gets a tested result")
+
+    _override_order(rep, ix, mca, pm, m_evolves)
 
     # ---- R13.5 ----------------------------------------------------------------------------------------------------------------------
     ts = ix.cls("PropertyProtocol").methods.get("to_string")
-    ok = any(isinstance(n, ast.If) and "self.default is not None" in norm(n.test) and "self.default.python_code" in norm(n) for n in ast.walk(ts.node))
-    rep.check(ok, "R13.5", "PropertyProtocol.to_string::prints-python_code", "the declaration does not print default.python_code", where(ts, ts.node))
-    dflt = set(Locals(ts.node).bound_from(lambda v: v == "self.default.python_code", "assign"))
-    n_ts = sum(1 for e in ji.emissions.values() if "to_string()" in e.expr and e.hole in dflt)
-    rep.floor("to_string_default_emissions", n_ts, 3)
+    ann = ix.cls("Value").fields.get("python_code")
+    pt = Paths(ts.node, source=lambda n: isinstance(n, ast.Attribute) and norm(n) == "self.default.python_code",
+               source_nonnull=ann is not None and norm(ann).strip("'\"") == "str")
+    t_rets = pt.returns()
+    with_default = [(n, s) for n, s in t_rets if s.facts.get("self.default is None") is False or s.facts.get("self.default") is True]
+    silent = [norm(n)[:60] if n is not None else "<end of function>" for n, s in with_default
+              if not (isinstance(n, ast.Return) and pt.derived(n.value, s))]
+    ok = bool(with_default) and not silent
+    rep.check(ok, "R13.5", "PropertyProtocol.to_string::prints-python_code", "the declaration does not print default.python_code",
+              where(ts, ts.node), lhs=silent or f"{len(with_default)} path(s) with a default", rhs="every path with a default returns text built from self.default.python_code")
+    # the templates emit that text: holes of to_string() emissions that carry everything a Value.python_code may hold
+    # (pasted labels are R13.3's business and may be transformed on the way, so they do not identify the hole)
+    pc_labels = {l for pc, _ in last_.values() for l in pc.labels if not (l in (RAW, UNKNOWN, RAW_NONSTR) or is_esc(l))}
+    n_ts = sum(1 for e in ji.emissions.values() if "to_string()" in e.expr and pc_labels and pc_labels <= e.labels)
+    if ok:
+        rep.floor("to_string_default_emissions", n_ts, 3)
+    else:
+        rep.indexed["to_string_default_emissions"] = n_ts
     rep.not_decided.append("value equality of the evaluated default with the document's value; leniency inside accepting branches")
     return LEVEL
 
 
-def _guards_of(fn: ast.AST, node: ast.AST) -> list[str]:
-    out: list[str] = []
+# ---- R13.6 -----------------------------------------------------------------------------------------------------------------------
+# Which declaration is the later one is decided where the merge is requested: the property that comes in as a parameter is merged
+# with the one found, under its name, among those collected so far - the parameter is the LATER ("L") declaration, the looked-up one
+# the EARLIER ("E").  These two roles are followed through the calls inside the merge module (arguments bound to parameters, locals
+# resolved through their definitions, a callee picked from a tuple of functions counts as each of them) down to every call of
+# _merge_common_attributes, whose last override must be the later declaration and nothing else.
 
-    def rec(cur: ast.AST, stack: list[str]) -> bool:
-        if cur is node:
-            out.extend(stack)
+def _lookup_by_param_name(e: ast.AST, params: set[str]) -> bool:
+    for n in ast.walk(e):
+        if isinstance(n, ast.Call) and isinstance(n.func, ast.Attribute) and n.func.attr == "get" and n.args and any(
+                norm(n.args[0]) == f"{p}.name" for p in params):
             return True
-        if isinstance(cur, ast.If):
-            for k in cur.body:
-                if rec(k, stack + [norm(cur.test)]):
-                    return True
-            for k in cur.orelse:
-                if rec(k, stack + ["not(" + norm(cur.test) + ")"]):
-                    return True
-            return False
-        if isinstance(cur, ast.Try):
-            for k in cur.body + cur.orelse + cur.finalbody + [s for h in cur.handlers for s in h.body]:
-                if rec(k, stack):
-                    return True
-            return False
-        for k in ast.iter_child_nodes(cur):
-            if isinstance(k, ast.stmt) and rec(k, stack):
-                return True
-        return False
+        if isinstance(n, ast.Subscript) and any(norm(n.slice) == f"{p}.name" for p in params):
+            return True
+    return False
 
-    # sequential early-return guards: an `if isinstance(...): ... return` earlier in the same block narrows later code
-    rec(fn, [])
+
+def _local_values(fn: ast.AST, name: str) -> list[ast.AST]:
+    """the expressions a local is bound from (element-wise for tuple assignments); loop variables have none"""
+    out = []
+    for kind, _, v in Locals(fn).defs.get(name, []):
+        if v is None or kind.startswith("for"):
+            continue
+        if "[" in kind and isinstance(v, ast.Tuple):
+            i = int(kind[kind.index("[") + 1:kind.index("]")])
+            v = v.elts[i] if i < len(v.elts) else v
+        out.append(v)
     return out
+
+
+def _override_order(rep: Report, ix: Any, sink: Any, pm: Paths, m_evolves: list) -> None:
+    mod = sink.module
+    entry = ix.func("merge_properties.merge_properties")
+    mfuncs = {f.name: f for f in ix.all_functions if f.module is mod and f.cls is None and f.parent is None}
+    roles: dict[tuple[str, str], set[str]] = {}
+
+    def params_of(f: Any) -> set[str]:
+        a = f.node.args
+        return {x.arg for x in [*a.posonlyargs, *a.args, *a.kwonlyargs]}
+
+    def role(e: ast.AST | None, f: Any, depth: int = 0) -> set[str]:
+        if e is None or depth > 8:
+            return set()
+        if isinstance(e, ast.Name):
+            if e.id in params_of(f):
+                return set(roles.get((f.qual, e.id), set()))
+            out: set[str] = set()
+            for v in _local_values(f.node, e.id):
+                out |= role(v, f, depth + 1)
+            return out
+        if isinstance(e, ast.IfExp):
+            return role(e.body, f, depth + 1) | role(e.orelse, f, depth + 1)
+        if isinstance(e, ast.BoolOp):
+            return set().union(*[role(v, f, depth + 1) for v in e.values])
+        if isinstance(e, (ast.Attribute, ast.NamedExpr, ast.Starred)):
+            return role(e.value, f, depth + 1)
+        if isinstance(e, ast.Call):   # evolve(p, ...), cast(T, p): still that declaration
+            return set().union(*[role(a, f, depth + 1) for a in e.args]) if e.args else set()
+        return set()
+
+    def callees(c: ast.Call, f: Any) -> list[Any]:
+        if not isinstance(c.func, ast.Name):
+            return []
+        if c.func.id in mfuncs and c.func.id not in params_of(f):
+            return [mfuncs[c.func.id]]
+        out = []
+        for kind, _, v in Locals(f.node).defs.get(c.func.id, []):   # for strategy in (f1, f2, ...): strategy(a, b)
+            if kind.startswith("for") and isinstance(v, (ast.Tuple, ast.List)):
+                out += [mfuncs[x.id] for x in v.elts if isinstance(x, ast.Name) and x.id in mfuncs]
+        return out
+
+    def bind(c: ast.Call, f: Any, h: Any) -> bool:
+        a = h.node.args
+        pos = [x.arg for x in [*a.posonlyargs, *a.args]]
+        changed = False
+        for i, arg in enumerate(c.args):
+            if isinstance(arg, ast.Starred) or i >= len(pos):
+                break
+            r = role(arg, f)
+            if not r <= roles.setdefault((h.qual, pos[i]), set()):
+                roles[(h.qual, pos[i])] |= r
+                changed = True
+        for kw in c.keywords:
+            if kw.arg and kw.arg in params_of(h):
+                r = role(kw.value, f)
+                if not r <= roles.setdefault((h.qual, kw.arg), set()):
+                    roles[(h.qual, kw.arg)] |= r
+                    changed = True
+        return changed
+
+    # where the merge is requested
+    n_roots = 0
+    for c_site, f in _outside_calls(ix, entry, mod):
+        ps = params_of(f)
+        got = []
+        for arg in c_site.args[:2]:
+            if isinstance(arg, ast.Name) and arg.id in ps:
+                got.append({"L"})
+            elif isinstance(arg, ast.Name) and any(_lookup_by_param_name(v, ps) for v in _local_values(f.node, arg.id)) or \
+                    _lookup_by_param_name(arg, ps):
+                got.append({"E"})
+            else:
+                got.append(set())
+        rep.require(len(got) == 2 and all(got) and got[0] != got[1],
+                    f"which argument of {entry.name}(...) in {f.name} is the incoming and which the already collected property")
+        n_roots += 1
+        a = entry.node.args
+        pos = [x.arg for x in [*a.posonlyargs, *a.args]]
+        for pn, r in zip(pos, got):
+            roles.setdefault((entry.qual, pn), set()).update(r)
+    rep.floor("merge_requests", n_roots, 1)
+    reached = {entry.qual}
+    work = [entry]
+    while work:     # roles only grow, a function is revisited only when one of its parameters gained a role
+        f = work.pop()
+        for c in [n for n in ast.walk(f.node) if isinstance(n, ast.Call)]:
+            for h in callees(c, f):
+                if h is sink:
+                    continue
+                if bind(c, f, h) or h.qual not in reached:
+                    reached.add(h.qual)
+                    work.append(h)
+    n_calls = 0
+    for f in mfuncs.values():
+        if f is sink or f.qual not in reached:
+            continue
+        for c in [n for n in ast.walk(f.node) if isinstance(n, ast.Call)]:
+            if sink not in callees(c, f):
+                continue
+            n_calls += 1
+            overrides = c.args[1:]
+            star = any(isinstance(x, ast.Starred) for x in c.args)
+            last = role(overrides[-1], f) if overrides and not star else set()
+            rep.check(last == {"L"}, "R13.6", f"{f.name}::override-order[{', '.join(role_anon(x, f.node) for x in c.args)}]",
+                      "the last override of the merge is not the later declaration: an inherited / earlier default beats the one that "
+                      "re-declares it", where(f, c), lhs=[f"{norm(x)}: {''.join(sorted(role(x, f))) or '?'}" for x in c.args],
+                      rhs="last override is the later declaration (L)")
+    rep.floor("merge_common_attribute_calls", n_calls, 6)
+    # inside: overrides applied in argument order, the override's converted default preferred over the accumulated one
+    va = sink.node.args.vararg.arg if sink.node.args.vararg else None
+    rep.require(va, "*overrides parameter of _merge_common_attributes")
+    loops = [n for n in ast.walk(sink.node) if isinstance(n, (ast.For, ast.comprehension)) and va in names_in(n.iter)]
+    rep.require(loops, "loop over the overrides in _merge_common_attributes")
+    in_order = all(norm(n.iter) in (va, f"enumerate({va})") for n in loops)
+    rep.check(in_order, "R13.6", "_merge_common_attributes::applied-in-order", "the overrides are not applied in argument order",
+              where(sink, loops[0] if isinstance(loops[0], ast.stmt) else sink.node), lhs=[norm(n.iter) for n in loops], rhs=f"for _ in {va}")
+    for n, c_, d, st in m_evolves[:1]:
+        acc = f"{norm(c_.args[0])}.default"
+        ok = False
+        if isinstance(d, ast.BoolOp) and isinstance(d.op, ast.Or):
+            ok = norm(d.values[-1]) == acc and all(norm(v) != acc for v in d.values[:-1])
+        elif isinstance(d, ast.IfExp):
+            pos_, flip = _positive(d.test.operand if isinstance(d.test, ast.UnaryOp) and isinstance(d.test.op, ast.Not) else d.test)
+            neg = flip != (isinstance(d.test, ast.UnaryOp) and isinstance(d.test.op, ast.Not))
+            is_none_test = isinstance(pos_, ast.Compare) and isinstance(pos_.ops[0], ast.Is) and _is_none(pos_.comparators[0])
+            subject = norm(pos_.left) if is_none_test else norm(pos_)
+            # true branch taken when the override's default is present?
+            present_when_true = (is_none_test and neg) or (not is_none_test and not neg)
+            ok = acc not in subject and ((present_when_true and norm(d.orelse) == acc and norm(d.body) != acc) or
+                                         (not present_when_true and norm(d.body) == acc and norm(d.orelse) != acc))
+        rep.check(ok, "R13.6", "_merge_common_attributes::override-preferred",
+                  "the accumulated default is not the fallback of the override's default (an earlier declaration's default wins or is lost)",
+                  where(sink, n), lhs=role_anon(d, sink.node), rhs=f"<override's converted default> or {acc}")
+
+
+def _outside_calls(ix: Any, entry: Any, mod: Any) -> list[tuple[ast.Call, Any]]:
+    """calls of `entry` from other modules, each with the innermost function that contains it"""
+    best: dict[int, tuple[ast.Call, Any, int]] = {}
+    for f in ix.all_functions:
+        if f.module is mod:
+            continue
+        size = None
+        for n in ast.walk(f.node):
+            if isinstance(n, ast.Call) and call_name(n).rsplit(".", 1)[-1] == entry.name:
+                if size is None:
+                    size = sum(1 for _ in ast.walk(f.node))
+                if id(n) not in best or size < best[id(n)][2]:
+                    best[id(n)] = (n, f, size)
+    return [(c, f) for c, f, _ in best.values()]
+
+
+def _isinstance_of(text: str) -> tuple[str, list[str]] | None:
+    """(subject text, type names) of an `isinstance(subject, types)` atom"""
+    if not text.startswith("isinstance("):
+        return None
+    try:
+        e = ast.parse(text, mode="eval").body
+    except SyntaxError:
+        return None
+    if isinstance(e, ast.Call) and len(e.args) == 2:
+        return norm(e.args[0]), _type_names(e.args[1])
+    return None
